@@ -8,7 +8,7 @@ RULE = ("every stopping game (structure x reward vector) of the listed universes
         "is 0, otherwise a complete 8-tuple); non-trivial = the initial state has exact value 0 or some Player-1/probabilistic "
         "state has >= 2 zero-probability successors")
 ASSUME = ["stopping decided exactly on the graph (finals absorbing, absorbing states reward 0, no end component among non-absorbing states)",
-          "termination = within 4e6 executed source lines, confirmed deterministically after a 2 s CPU-time trigger (legitimate solves of these games need < 2e5 lines)"]
+          "termination = within 1e6 executed source lines, confirmed deterministically after a 1 s CPU-time trigger (legitimate solves of these games need < 2e5 lines)"]
 
 
 def _vacuity(tot):
